@@ -232,3 +232,71 @@ class MustFacts(Domain):
 
     def bind(self, target, s, source=None):
         return s
+
+
+# --------------------------------------------------------------------------
+# disjunctive completion (trace partitioning): the state is a list of base
+# states that are never merged at if-joins (until `cap` is exceeded).  Gives
+# exact path sensitivity on loop-free code.
+# --------------------------------------------------------------------------
+class Disjunctive(Domain):
+    def __init__(self, base: Domain, cap: int = 128):
+        self.b = base
+        self.cap = cap
+
+    def copy(self, s): return [self.b.copy(x) for x in s]
+
+    def _norm(self, s):
+        s = [x for x in s if x is not None]
+        if len(s) > self.cap:
+            merged = s[0]
+            for x in s[1:]:
+                merged = self.b.join(merged, x)
+            return [merged]
+        return s
+
+    def join(self, a, b): return self._norm(list(a) + list(b))
+
+    def leq(self, a, b):
+        return all(any(self.b.leq(x, y) for y in b) for x in a)
+
+    def widen(self, old, new):
+        m_old = old[0]
+        for x in old[1:]:
+            m_old = self.b.join(m_old, x)
+        m_new = new[0]
+        for x in new[1:]:
+            m_new = self.b.join(m_new, x)
+        return [self.b.widen(m_old, m_new)]
+
+    def transfer(self, stmt, s):
+        return self._norm([self.b.transfer(stmt, x) for x in s]) or None
+
+    def assume(self, test, s, truth):
+        out = []
+        split = getattr(self.b, 'assume_split', None)
+        for x in s:
+            if split is not None:
+                out.extend(split(test, x, truth))
+            else:
+                out.append(self.b.assume(test, x, truth))
+        out = self._norm(out)
+        return out or None
+
+    def bind(self, target, s, source=None):
+        return [self.b.bind(target, x, source) for x in s]
+
+
+def each(hook):
+    """adapt a per-state hook to a Disjunctive state list"""
+    def wrapped(node, states, *rest):
+        for x in states:
+            hook(node, x, *rest)
+    return wrapped
+
+
+def each_exit(hook):
+    def wrapped(kind, node, states):
+        for x in states:
+            hook(kind, node, x)
+    return wrapped
